@@ -233,7 +233,11 @@ def same_message(rep, out):
 def check_cli(inp):
     argv, stdin = inp["argv"], inp.get("stdin")
     raw = argv
-    if inp.get("subprocess"):
+    if inp.get("pty"):
+        r = cli.run_pty(argv, inp["pty"][0], inp["pty"][1], console_script=bool(inp.get("console_script")))
+        if r["status"] is None:
+            return []           # time budget: inconclusive
+    elif inp.get("subprocess"):
         r = cli.run_subprocess(argv, stdin, console_script=bool(inp.get("console_script")), env_extra=inp.get("env"), plant=planted_file(inp))
     else:
         r = cli.run_inprocess(argv, stdin)
@@ -392,6 +396,17 @@ def hyp_part(n_examples, shard, n_sub):
             b = cli.run_subprocess(inp["argv"], inp["stdin"], console_script=cs, env_extra=sub["env"], plant=planted_file(sub))
             if b["status"] != 0 or "Traceback" in b["err"]:
                 raise runner.Falsified("cli", sub, [failure("exit status 0, no traceback", {"status": b["status"], "stderr": b["err"][-300:]})])
+            if inp["stdin"] is None and k % 2 == 0 and all(ord(c) < 128 for x in inp["argv"] for c in x) and vector_arg(expand(inp["argv"])):
+                # the same command line typed at a terminal of some size
+                term = dict(inp, pty=[(80, 24), (40, 10), (132, 50), (20, 5), (200, 60), (81, 25)][(k // 2) % 6], console_script=cs)
+                part.classes["terminal %dx%d" % tuple(term["pty"])] += 1
+                c = cli.run_pty(inp["argv"], term["pty"][0], term["pty"][1], console_script=cs)
+                if c["status"] is None:
+                    part.notes.append("a terminal run exceeded its time budget (inconclusive): %r" % (inp["argv"],))
+                elif c["status"] != 0 or "Traceback" in c["err"] or "Traceback" in c["out"]:
+                    raise runner.Falsified("cli", term, [failure("exit status 0, no traceback", {"status": c["status"], "stderr": c["err"][-300:]})])
+                elif c["out"] != a["out"]:
+                    raise runner.Falsified("cli", term, [failure(a["out"][-300:], c["out"][-300:], note="output on a %dx%d terminal differs from the captured in-process output" % tuple(term["pty"]))])
             if a["out"] != b["out"] and not decoded_differently(sub):
                 raise runner.Falsified("cli", sub, [failure(a["out"][-300:], b["out"][-300:], note="subprocess stdout differs from in-process stdout")])
     runner.run_hyp(part, t, "C17.hyp")
